@@ -38,7 +38,7 @@ theorem toPend_inj {w : World} (hw : WheelInv w) {c₁ c₂ : Call} (h₁ : InWh
   have e₂ := hw.ent s₂ _ m₂
   unfold toPend at h
   simp only [Pend.mk.injEq] at h
-  obtain ⟨ho, hf, ht, hd, hh, hfp⟩ := h
+  obtain ⟨ho, hf, ht, hd, hh, hfp, hgv⟩ := h
   have hh' : c₁.handle = c₂.handle := by omega
   have hs : s₁ = s₂ := by
     have a := slot_of_handle e₁; have b := slot_of_handle e₂
@@ -55,7 +55,7 @@ theorem toPend_inj {w : World} (hw : WheelInv w) {c₁ c₂ : Call} (h₁ : InWh
   have hdue : c₁.due = c₂.due := by omega
   cases c₁; cases c₂
   simp only [Call.mk.injEq] at *
-  exact ⟨hser, ho, hf, ht, hh', hdue, hfp⟩
+  exact ⟨hser, ho, hf, ht, hh', hdue, hfp, hgv⟩
 
 /-- handles compare like serials inside one slot -/
 theorem handle_lt_of_serial_lt {w : World} {s : Nat} {p q : Int × Call} (ep : EntOK w s p) (eq : EntOK w s q)
